@@ -36,12 +36,14 @@ def main(argv):
     import importlib
 
     boot.boot()
-    sim = importlib.import_module("sims." + ent["sim"])
-    meta = dict(getattr(sim, "META", {}))
-    meta.update(ent.get("meta", {}))
-    cfg = dict(ent[tier])
-    cfg["tier"] = tier
-    return runner.run_check(a.target, ent["sim"], tier, cfg, meta)
+    batches = []
+    for e in [ent] + list(ent.get("further", [])):
+        sim = importlib.import_module("sims." + e["sim"])
+        meta = dict(getattr(sim, "META", {}))
+        cfg = dict(e[tier])
+        cfg["tier"] = tier
+        batches.append((e["sim"], cfg, meta))
+    return runner.run_check(a.target, batches, tier)
 
 
 if __name__ == "__main__":
